@@ -129,7 +129,12 @@ func (g *gctx) dynamic(k kind, noArg bool) *Node {
 			}
 		}
 		if len(cand) > 0 && g.chance(70, "useArg") {
-			return argn(cand[g.n(0, len(cand)-1, "argIdx")])
+			a := argn(cand[g.n(0, len(cand)-1, "argIdx")])
+			if g.chance(20, "argSpelling") {
+				a.Sp = g.n(1, 4, "argSp")
+				g.label("argument-reference-in-another-spelling")
+			}
+			return a
 		}
 		if k == kSmall {
 			return key("s")
